@@ -38,7 +38,7 @@ Definition robs := (request * reply * sres)%type.
 Definition sstep (st : srv * Z) (e : sevent) : (srv * Z) * list robs :=
   let '(s, now) := st in
   match e with
-  | SEstablish en w => ((set_cache_at s w (store (cache_at s w) en), now), [])
+  | SEstablish en w => ((set_cache_at s w (store_new (cache_at s w) en), now), [])
   | SResume q wc =>
       let '(s', rep, res) := handle_resumption s now q wc in ((s', now), [(q, rep, res)])
   | SRenew sid w =>
